@@ -6,6 +6,8 @@
      find <at> <hex>        -> "none" | "fuel" | "m s e c0 c1 ..."   (caps incl. group 0)
      ismatch <hex>          -> "true" | "false" | "fuel"
      anch <s> <hex>         -> anchored search from position s: "none"|"fuel"|"m s e caps.."
+     longest <at> <hex>     -> leftmost-longest span: "none"|"fuel"|"m s e"
+     ends <s> <hex>         -> all match ends of anchored paths from s: "e e1 e2 ..."|"fuel"
    One answer line per query; flushed after each. *)
 open Model
 
@@ -77,6 +79,17 @@ let handle line =
        | OutOfFuel -> Some "fuel"
        | Done None -> Some "none"
        | Done (Some (e, sl)) -> Some (show_match s' e sl))
+  | "longest" :: at :: rest ->
+      let h = hex_to_hay (match rest with x :: _ -> x | [] -> "") in
+      (match find_at_longest (get_nfa ()) h (nat_of_int (ios at)) with
+       | OutOfFuel -> Some "fuel"
+       | Done None -> Some "none"
+       | Done (Some (s, e)) -> Some ("m " ^ string_of_int (int_of_nat s) ^ " " ^ string_of_int (int_of_nat e)))
+  | "ends" :: s :: rest ->
+      let h = hex_to_hay (match rest with x :: _ -> x | [] -> "") in
+      (match match_ends (get_nfa ()) h (nat_of_int (ios s)) with
+       | OutOfFuel -> Some "fuel"
+       | Done l -> Some ("e" ^ String.concat "" (List.map (fun e -> " " ^ string_of_int (int_of_nat e)) l)))
   | [] -> None
   | _ -> Some ("error unknown command: " ^ line)
 
